@@ -1667,6 +1667,35 @@ func c15ContentClass(s string) string {
 
 // ---------- generation ----------
 
+// c15Marks: byte sequences that text-handling code is tempted to treat as not part of the content when they stand at
+// the start or the end of a payload: byte order marks (UTF-8, UTF-16 LE / BE, UTF-32), NUL, blanks, line ends, Ctrl-Z, DEL.
+// The codecs store / write exactly the bytes read, these included - also when they are the whole payload.
+var c15Marks = []string{"\xef\xbb\xbf", "\xff\xfe", "\xfe\xff", "\xff\xfe\x00\x00", "\x00", " ", "\t", "\n", "\r\n", "\r", "\x1a", "\x7f", "\xef\xbb", "\xef\xbb\xbf\xef\xbb\xbf"}
+
+// c15Marked: a mark alone, in front of, behind or around a word.
+func c15Marked(r *rand.Rand) string {
+	m := c15Marks[r.Intn(len(c15Marks))]
+	switch r.Intn(5) {
+	case 0:
+		return m
+	case 1:
+		return c15Word(r) + m
+	case 2:
+		return m + c15Word(r) + c15Marks[r.Intn(len(c15Marks))]
+	default:
+		return m + c15Word(r)
+	}
+}
+
+// c15StreamContent: payloads of the byte stream / text codecs (the documents of the JSON / XML / YAML round trips keep
+// c15Content: what a CR or a NUL inside a YAML / XML scalar becomes is the encoder's business, not this property's).
+func c15StreamContent(r *rand.Rand) string {
+	if r.Intn(6) == 0 {
+		return c15Marked(r)
+	}
+	return c15Content(r)
+}
+
 func c15Content(r *rand.Rand) string {
 	switch r.Intn(12) {
 	case 0:
@@ -1824,7 +1853,7 @@ func c15GenConsume(r *rand.Rand, codec string, maxLen int) c15In {
 	if r.Intn(3) == 0 { // the supported kinds more often
 		in.Dest = []string{"ptr_string", "ptr_bytes", "buffer", "writer", "binunm", "textunm", "any_string", "any_bytes", "ptr_named_string"}[r.Intn(9)]
 	}
-	content := c15Content(r)
+	content := c15StreamContent(r)
 	if maxLen > 0 && len(content) > maxLen {
 		content = content[:maxLen]
 	}
@@ -1856,7 +1885,7 @@ func c15GenProduce(r *rand.Rand, codec string, maxLen int) c15In {
 	if r.Intn(3) == 0 {
 		in.Src = []string{"reader", "reader", "buffer", "bytes", "string", "binmar", "textmar", "writerto_rc"}[r.Intn(8)]
 	}
-	content := c15Content(r)
+	content := c15StreamContent(r)
 	if maxLen > 0 && len(content) > maxLen {
 		content = content[:maxLen]
 	}
@@ -1963,6 +1992,28 @@ func (c15) Enumerate(tier string) []any {
 					}
 				}
 				out = append(out, c15In{Kind: "consume", Codec: codec, CloseOpt: closeOpt, NilStrm: true, Dest: dest})
+			}
+			// every mark (c15Marks) alone, in front of and behind a word, into the main destination kinds, fresh and pre-filled
+			if !closeOpt {
+				for mi, m := range c15Marks {
+					for di, dest := range []string{"ptr_string", "ptr_bytes", "buffer", "textunm", "binunm", "ptr_named_string", "any_string", "writer"} {
+						for pi, content := range []string{m, m + "hello", "hello" + m} {
+							if tier == "quick" && pi > 0 && (mi+di+pi)%2 != 0 {
+								continue
+							}
+							in := c15In{Kind: "consume", Codec: codec, Closable: true, Dest: dest, Script: "marked"}
+							if (mi+di)%2 == 0 {
+								in.Steps = []c15Step{{C: Bs(content)}}
+							} else {
+								in.Steps = append(c15OneByteSteps([]byte(content)), c15Step{T: 1})
+							}
+							if pi == 0 || (mi+di+pi)%3 == 0 {
+								in.Pre, in.WPre = "OLD", "OLD"
+							}
+							out = append(out, in)
+						}
+					}
+				}
 			}
 			wscripts := []struct {
 				name  string
